@@ -1,11 +1,11 @@
 (* C04 - Client: replies are matched to requests by id, whatever the peer's ordering.
-   Property theorems only; every proof is `exact <lemma>` (lemmas in coq/cli/CliProofs.v, CliHist.v, CliSend.v;
+   Property theorems only; every proof is `exact <lemma>` (lemmas in coq/cli/CliProofs.v, CliHist.v, CliSend.v, CliFed.v;
    invariants in coq/cli/CliInv.v, CliCtx.v, CliOps.v, CliHist.v, CliSend.v).  [traces_to c tr s]: s is the state of the client model after the label sequence
    tr (any interleaving of API calls, context ends, peer records, transport faults and goroutine
    releases) from the initial state with hook configuration c. *)
 From Coq Require Import List NArith ZArith Bool Arith.
 From RecordUpdate Require Import RecordUpdate.
-From JV Require Import Bytes Msg CliModel CliLemmas CliInv CliProofs CliCtx CliOps CliHist CliSend.
+From JV Require Import Bytes Msg CliModel CliLemmas CliInv CliProofs CliCtx CliOps CliHist CliSend CliFed.
 Import ListNotations.
 
 (* ids allocated are pairwise distinct; no two pending entries share an id; every pending entry is the
@@ -61,6 +61,15 @@ Theorem c04_answer_first_only : forall s log i sl v e, answered_by s log i sl v 
   /\ exists l1 l2, log = l1 ++ e :: l2 /\ filter (hits (id_text (sl_id sl))) l1 = [] /\ filter (hits (id_text (sl_id sl))) l2 = [].
 Proof. exact answered_only. Qed.
 Print Assumptions c04_answer_first_only.
+
+(* the delivery records are the peer's: the message arrays fed by the environment (LFeed labels of the trace) are,
+   in order, those picked up by the reader so far followed by those still queued; hence the member (j, k) of the
+   delivery log named in c04_reply_is_peers is member k of the j-th array the peer sent *)
+Theorem c04_delivered_are_fed : forall c tr s, traces_to c tr s ->
+  fed tr = map d_msgs (delivs s) ++ flat_map feed_msgs (ch_in s)
+  /\ (forall j k m, member_at s j k m -> exists ms, nth_error (fed tr) j = Some ms /\ nth_error ms k = Some m).
+Proof. exact delivered_are_fed. Qed.
+Print Assumptions c04_delivered_are_fed.
 
 (* the id the replies are matched under is the id that went out on the wire: a returned Call sent one request
    carrying its slot's id; a returned Batch sent one record with one member per spec, and its responses are, in
